@@ -20,8 +20,9 @@
 (*  "trials" - geometric / binomial / negative binomial as Bernoulli trial     *)
 (*             processes: range of the result, also for p = 1.                 *)
 (*  "cases"  - well-formedness of the fit cases (admissible parameters, exact  *)
-(*             probability mass functions sum to one, edges ascending) and     *)
-(*             export of the cases and of the steered-draw targets as JSON.    *)
+(*             probability mass functions sum to one, bin weights sum to one),  *)
+(*             conservativeness of the frequency law's integer arithmetic, and  *)
+(*             export of the cases and of the steered-draw targets as JSON.     *)
 EXTENDS Samplers, SamplersFit, Json, IOUtils
 
 CONSTANTS Model, Variant,
@@ -179,6 +180,21 @@ CaseWellFormed(c) ==
 CasesWellFormed == st = "cases" => \A i \in 1..Len(FitCases) : CaseWellFormed(FitCases[i])
 CaseIdsDistinct == st = "cases" => \A i, j \in 1..Len(FitCases) : i # j => FitCases[i].id # FitCases[j].id
 EverySamplerHasACase == st = "cases" => \A s \in AllSamplers : \E i \in 1..Len(FitCases) : FitCases[i].s = s
+
+(* the 32-bit-safe arithmetic of the frequency law is conservative: compared with direct evaluation on *)
+(* numbers small enough for direct evaluation                                                          *)
+FreqLawSane ==
+  st = "cases" =>
+    \A n \in {1, 7, 64, 1000, 4096}, d \in {1, 2, 3, 8, 64} : \A a \in 0..d :
+      LET W == FreqBound(n, a, a, d)
+          v == (n * a * (d - a)) \div (d * d)
+          r == W - (KSigma * KSigma) \div 3 - 1
+      IN /\ (a = 0 => FreqLo(n, a, a, d) = 0 /\ FreqHi(n, a, a, d) = 0)
+         /\ (a = d => FreqLo(n, a, a, d) = n /\ FreqHi(n, a, a, d) = n)
+         /\ (0 < a /\ a < d) => /\ FreqLo(n, a, a, d) <= (n * a) \div d - r
+                                /\ FreqHi(n, a, a, d) >= (n * a + d - 1) \div d + r
+                                /\ r * r >= KSigma * KSigma * v
+                                /\ FreqOK((n * a) \div d, n, a, a, d)
 
 (* how many top bits of a 64-bit keep-probability the harness reports, so that the table check stays in 32 bits *)
 QBits(n, d) == CHOOSE qb \in 4..20 : /\ 2 * (n + 1) * d * Pow(2, qb) < 1073741824
